@@ -707,6 +707,21 @@ fn main() {
             if Euclidean.distance(&ls_in_hole, &outer) != 3.0 || Euclidean.distance(&outer, &ls_in_hole) != 3.0 {
                 fail(format!("line string inside a hole: {}", Euclidean.distance(&ls_in_hole, &outer)));
             }
+            // multi-part operands: the minimum over EVERY member, the first and the last included
+            use geo_types::{Geometry, GeometryCollection, MultiLineString, MultiPoint, MultiPolygon};
+            let near_first = MultiPoint(vec![Point::new(3.0, 5.0), Point::new(50.0, 50.0), Point::new(60.0, 60.0)]);
+            let near_last = MultiPoint(vec![Point::new(60.0, 60.0), Point::new(50.0, 50.0), Point::new(3.0, 5.0)]);
+            for mp_ in [&near_first, &near_last] {
+                if Euclidean.distance(mp_, &la) != 5.0 || Euclidean.distance(&la, mp_) != 5.0 || Euclidean.distance(mp_, &Geometry::Line(la)) != 5.0 {
+                    fail(format!("multi-point vs line: {}", Euclidean.distance(mp_, &la)));
+                }
+            }
+            let mls = MultiLineString(vec![zig.clone(), vec![(100.0, 100.0), (101.0, 100.0)].into()]);
+            let mpoly = MultiPolygon(vec![Polygon::new(sq(100.0, 100.0, 110.0, 110.0), vec![]), two_holes.clone()]);
+            let gc = GeometryCollection(vec![Geometry::Point(Point::new(500.0, 500.0)), Geometry::Line(top)]);
+            if Euclidean.distance(&mls, &top) != 2.0 || Euclidean.distance(&mpoly, &Point::new(25.0, 10.0)) != 5.0 || Euclidean.distance(&gc, &zig) != 2.0 || Euclidean.distance(&zig, &gc) != 2.0 {
+                fail("multi-line-string / multi-polygon / collection: the nearest member was not taken".to_string());
+            }
             println!("ok polygon distance");
         }
         "quick_hull_extremes" => {
